@@ -424,6 +424,40 @@ impl Server {
   }
 }
 
+// Inspection hooks for external verification machinery. Add-only, compiled
+// only with the `verif-hooks` feature.
+#[cfg(feature = "verif-hooks")]
+impl Server {
+  pub fn verif_pprf(&self) -> &GGM {
+    &self.pprf
+  }
+
+  pub fn verif_oprf_key(&self) -> [u8; 32] {
+    self.oprf_key.to_bytes()
+  }
+}
+
+#[cfg(feature = "verif-hooks")]
+impl ProofDLEQ {
+  pub fn verif_new_batch(
+    key: &RistrettoScalar,
+    public_value: &RistrettoPoint,
+    p: &[RistrettoPoint],
+    q: &[RistrettoPoint],
+  ) -> Self {
+    ProofDLEQ::new_batch(key, public_value, p, q)
+  }
+
+  pub fn verif_verify_batch(
+    &self,
+    public_value: &RistrettoPoint,
+    p: &[RistrettoPoint],
+    q: &[RistrettoPoint],
+  ) -> bool {
+    self.verify_batch(public_value, p, q)
+  }
+}
+
 // The `Client` struct is essentially a collection of static functions
 // for computing client-side operations in the PPOPRF protocol.
 pub struct Client {}
